@@ -48,6 +48,7 @@ template<typename T> struct Model {
   std::vector<std::vector<T>> pts;     // every accepted point
   uint64_t n = 0;
   bool compacted = false;              // monitor-side knowledge only used for coverage counters
+  double center = 0;                   // where the data lives: generated query points are placed around it
 };
 
 // decode level sizes from the documented image layout
@@ -65,6 +66,15 @@ static bool decode_levels(const std::vector<uint8_t>& img, size_t tsize, uint32_
     lv.push_back(s);
   }
   return off == img.size();
+}
+
+// reference kernel value: the monitor's own kernels are their own definition; the library's gaussian kernel is
+// re-computed independently (exp(-|a-b|^2) from coordinate differences in long double)
+template<typename T, typename K> static long double ref_kernel(const K& kern, const std::vector<T>& a, const std::vector<T>& b) { return static_cast<long double>(kern(a, b)); }
+template<typename T> static long double ref_kernel(const gaussian_kernel<T>&, const std::vector<T>& a, const std::vector<T>& b) {
+  long double d2 = 0;
+  for (size_t i = 0; i < a.size(); ++i) { const long double d = static_cast<long double>(a[i]) - static_cast<long double>(b[i]); d2 += d * d; }
+  return expl(-d2);
 }
 
 template<typename T, typename K>
@@ -127,7 +137,7 @@ static void observe(const density_sketch<T, K>& s, const Model<T>& m, Rng& r, co
   for (int q = 0; q < 12; ++q) {
     std::vector<T> pt(dim);
     if (q < 4 && !m.pts.empty()) pt = m.pts[r.below(m.pts.size())];
-    else for (auto& x : pt) x = static_cast<T>((r.unit() - 0.5) * (q % 2 ? 4 : 40));
+    else for (auto& x : pt) x = static_cast<T>(m.center + (r.unit() - 0.5) * (q % 2 ? 4 : 40));
     T est = 0; bool threw = false;
     try { est = s.get_estimate(pt); } catch (const std::exception&) { threw = true; }
     checked();
@@ -135,9 +145,9 @@ static void observe(const density_sketch<T, K>& s, const Model<T>& m, Rng& r, co
     VF_CHECK(std::isfinite(est) && est >= 0, P + "estimate-not-finite-or-negative", ctx + " est=" + str(est));
     if (!s.is_estimation_mode()) {
       long double exact = 0;
-      for (auto& p : m.pts) exact += static_cast<long double>(kern(p, pt));
+      for (auto& p : m.pts) exact += ref_kernel(kern, p, pt);
       exact /= static_cast<long double>(m.n);
-      const double tol = (sizeof(T) == 4 ? 2e-4 : 1e-10) * std::max<double>(double(exact), 0) + (sizeof(T) == 4 ? 1e-7 : 1e-15);
+      const double tol = (sizeof(T) == 4 ? 5e-4 : 1e-10) * std::max<double>(double(exact), 0) + (sizeof(T) == 4 ? 1e-6 : 1e-15);
       VF_CHECK(std::fabs(double(est) - double(exact)) <= tol, P + "exact-mode-estimate-differs-from-kernel-mean", ctx + " est=" + str(est) + " exact=" + str(double(exact)));
       count("exact_mode_estimates");
     } else count("estimation_mode_estimates");
@@ -171,7 +181,10 @@ static void program(Rng& r) {
   for (int l = 0; l < nleaves; ++l) {
     const uint16_t kl = (l == 0 || r.chance(0.7)) ? k : uint16_t(r.range(2, 40));
     sk.emplace_back(new SK(kl, dim, kern)); md.emplace_back(); ks.push_back(kl);
-    const int shape = int(r.below(5));
+    const int shape = int(r.below(6));
+    // shape 5: a small cloud far from the origin (coordinates large relative to the spacing of the points)
+    const double far = (sizeof(T) == 4 ? 2e4 : 1e8) * double(1 + r.below(30));
+    if (shape == 5) { md[l].center = far; count("far_from_origin_leaves"); }
     const uint64_t n = r.chance(0.1) ? r.below(2) : (r.chance(0.5) ? r.below(uint64_t(kl) + 2) : r.below(uint64_t(kl) * (TH ? 40 : 12) + 1));
     observe(*sk[l], md[l], r, "construction", kl, dim, kern);
     for (uint64_t i = 0; i < n; ++i) {
@@ -183,6 +196,7 @@ static void program(Rng& r) {
           case 1: x = double(r.below(3)) * 5 + r.unit() * 0.1; break;     // clusters
           case 2: x = double(i) * 10; break;                               // far apart (compact kernel sees zeros)
           case 3: x = 1.0; break;                                          // all identical
+          case 5: x = far + double(r.below(4)) + (r.coin() ? 0.5 : 0.0); break;
           default: x = (r.unit() - 0.5) * 6; break;
         }
         p[d] = static_cast<T>(x);
@@ -221,7 +235,7 @@ static void program(Rng& r) {
 
 // dimensions beyond 16 bits (dim is a 32-bit parameter)
 static void huge_dimension_case(Rng& r) {
-  const uint32_t dim = r.pick({65536u, 65539u, 70000u, 131075u});
+  const uint32_t dim = r.pick({65536u, 65539u, 70000u, 131075u, 4097u, 5000u, 8193u, 9001u});   // also just above the stream reader's 4096-coordinate piece
   const uint16_t k = uint16_t(r.range(2, 5));
   describe("huge dimension dim=" + std::to_string(dim) + " k=" + std::to_string(k));
   typedef gaussian_kernel<float> KK;
@@ -232,11 +246,25 @@ static void huge_dimension_case(Rng& r) {
   const int n = int(r.range(1, 2 * k + 2));
   for (int i = 0; i < n; ++i) {
     std::vector<float> p(dim, 0.0f);
+    const float sc = 1.0f / std::sqrt(float(dim));
+    for (uint32_t j = 0; j < dim; ++j) p[j] = float(r.unit()) * sc;   // dense: every coordinate carries information
     for (int j = 0; j < 8; ++j) p[r.below(dim)] = float(r.unit());
     s.update(p); m.pts.push_back(p); m.n++;
   }
   observe(s, m, r, "updates", k, dim, kern);
-  VF_CHECK(throws([&] { s.update(std::vector<float>(dim & 0xffff ? (dim & 0xffff) : 3, 1.0f)); }), "density|gauss-f32|wrong-dimension-update-accepted|dim-mod-65536", G().cur_desc);
+  {  // the image read back through both paths holds the same points; then the stream continues
+    std::stringstream ss; s.serialize(ss);
+    auto viastream = density_sketch<float, KK>::deserialize(ss, kern);
+    observe(viastream, m, r, "stream-roundtrip", k, dim, kern);
+    auto bytes = s.serialize();
+    auto viabytes = density_sketch<float, KK>::deserialize(bytes.data(), bytes.size(), kern);
+    observe(viabytes, m, r, "bytes-roundtrip", k, dim, kern);
+    std::vector<float> p(dim, 0.25f / std::sqrt(float(dim)));
+    viastream.update(p); m.pts.push_back(p); m.n++;
+    observe(viastream, m, r, "update-after-stream-roundtrip", k, dim, kern);
+    count("huge_dimension_roundtrips");
+  }
+  if (dim >= 65536) VF_CHECK(throws([&] { s.update(std::vector<float>(dim & 0xffff ? (dim & 0xffff) : 3, 1.0f)); }), "density|gauss-f32|wrong-dimension-update-accepted|dim-mod-65536", G().cur_desc);
   count("huge_dimension_cases");
 }
 
